@@ -4,7 +4,7 @@ from .. import common, pool, pipefam
 
 RULE = ("histories of open/write/re-open on real scratch HDF5 files for 1-3 groups (prefixes); re-open configurations equal to the stored "
         "ones or differing in length (+-1), in one element, or in order, or equal to the layout of another group of the same file, for each of the gene, TE-name and window lists, incl. large "
-        "windows differing by 1; one history in 15 has a group with 1025-3000 gene names, re-opened with one name changed or two swapped among the last ones / at a block boundary; after every open the group's datasets are digested (shape, dtype, bytes) before/after; non-trivial = "
+        "windows differing by 1; one history in 15 has a group with 1025-3000 gene names, re-opened with one name changed or two swapped among the last ones / at a block boundary; about a third of the re-opens through a file handle opened read-only; a third of the writes mark only every second entry of the validity bitmap; after every open the group's datasets are digested (shape, dtype, bytes) before/after; non-trivial = "
         "a history with a write followed by at least one mismatching and one matching re-open; distinct = the history")
 PREFIXES = ["superfamily", "order", "other"]
 
@@ -77,6 +77,10 @@ def gen_history(r, large=False):
                     i = max(0, len(l) - 2 - r.randrange(20)); l[i], l[i + 1] = l[i + 1], l[i]
                 tag = "genes:%s_large" % kind
             ops.append(["open", p, c]); tags.append(tag)
+    # some of the re-opens go through a file handle opened for reading only (what a plotting or summary script does)
+    for o in ops[npref:]:
+        if o[0] == "open" and r.random() < 0.3:
+            o.append("r")
     return ops, tags
 
 
@@ -156,6 +160,11 @@ def run(chk):
         chk.case_seen(ops, nontriv)
         for t in tags:
             chk.count("op:" + t)
+        for o in ops:
+            if o[0] == "open" and len(o) > 3:
+                chk.count("open_through_read_only_handle")
+            if o[0] == "write" and o[2] % 3 == 2:
+                chk.count("write_marking_half_of_the_bitmap")
         pf = property_failures(ops, rr)
         if pf:
             nv += 1
